@@ -18,6 +18,7 @@ import Mahotas.Proofs.C15Euler
 import Mahotas.Proofs.C15Cell
 import Mahotas.Proofs.C15Count
 import Mahotas.Proofs.C15Flood
+import Mahotas.Proofs.C15Row
 import Mahotas.Proofs.C15FloodPx
 open Mahotas Mahotas.C15
 
@@ -586,3 +587,229 @@ theorem C15_components_eq_card (b : Bin) : components b true = Nat.card (Comps (
     | _ p =>
       obtain ⟨s, ⟨hs, hc⟩, _⟩ := huniq p.1 p.2
       exact ⟨⟨s, hs⟩, Quotient.sound hc⟩
+
+/-! ## Round 4 — the `mode` argument of `euler` -/
+
+/-- reading through `ignore` (an out-of-image element is skipped = contributes weight 0) is reading background outside -/
+theorem C15_getMode_ignore (b : C15.Bin) (y x : Int) : C15.getMode b .ignore y x = b.get y x := by
+  unfold C15.getMode fixOffset
+  by_cases hy : y < 0 ∨ y ≥ (b.rows : Int)
+  · have : b.get y x = false := by
+      unfold C15.Bin.get; rw [if_neg]; omega
+    simp [hy, this]
+  · by_cases hx : x < 0 ∨ x ≥ (b.cols : Int)
+    · have : b.get y x = false := by
+        unfold C15.Bin.get; rw [if_neg]; omega
+      simp [hy, hx, this]
+    · simp [hy, hx]
+
+/-- every mode reads the pixel itself inside the image -/
+theorem C15_getMode_inside (b : C15.Bin) (m : Mode) (y x : Int)
+    (hy : 0 ≤ y ∧ y < (b.rows : Int)) (hx : 0 ≤ x ∧ x < (b.cols : Int)) : C15.getMode b m y x = b.get y x := by
+  have h1 : ¬ y < 0 := by omega
+  have h2 : ¬ y ≥ (b.rows : Int) := by omega
+  have h3 : ¬ x < 0 := by omega
+  have h4 : ¬ x ≥ (b.cols : Int) := by omega
+  cases m <;> simp [C15.getMode, fixOffset, h1, h2, h3, h4]
+
+/-- **C15 (`euler`, the `mode` argument).** `eulerMode4` is the model of `euler(f, n, mode)` for all six border modes (compared
+with the real call for every mode by the check). The default `constant` is the padded sum `eulerModel4` the statement is about;
+`ignore` is the *unpadded* sum `eulerPinned4` (only the windows ending inside the image, background outside) — the quantity
+the pinned code computed in the default mode too (defect #23) — and for every mode the value only depends on reads of row /
+column `-1` through `fixOffset`: inside the image all modes read the pixel itself. -/
+theorem C15_euler_mode (b : C15.Bin) (conn8 : Bool) :
+    C15.eulerMode4 b conn8 .constant = C15.eulerModel4 b conn8 ∧
+    C15.eulerMode4 b conn8 .ignore = C15.eulerPinned4 b conn8 := by
+  refine ⟨rfl, ?_⟩
+  have hq : ∀ y x, C15.quadCodeMode b .ignore y x = C15.quadCode b y x := by
+    intro y x
+    unfold C15.quadCodeMode C15.quadCode
+    simp only [C15_getMode_ignore]
+  simp only [C15.eulerMode4, C15.eulerPinned4, hq]
+
+/-! non-vacuity: the 2×2 block is 1 component (4/4) in the default mode; unpadded (`ignore`) only the top-left window counts
+    (1/4, what the real code returns); `wrap` sees a torus entirely covered (0); `nearest` a quarter plane (1/4 … ) -/
+example :
+    let b := C15.Bin.ofInts 2 2 [1, 1, 1, 1]
+    C15.eulerMode4 b true .constant = 4 ∧ C15.eulerMode4 b true .ignore = 1 ∧
+    C15.eulerMode4 b true .wrap = 0 ∧ C15.eulerMode4 b true .nearest = 0 ∧
+    C15.getMode b .mirror (-1) 0 = true ∧ C15.getMode (C15.Bin.ofInts 2 1 [0, 1]) .mirror (-1) 0 = true ∧
+    C15.getMode (C15.Bin.ofInts 2 1 [0, 1]) .reflect (-1) 0 = false := by decide
+
+/-! ## Round 4 — `thin`: the `max_iter` argument and the control structure around the passes -/
+
+/-- the loop composes: `n + k` rounds are `k` rounds after `n` rounds (an early exit leaves a stable image) -/
+theorem C15_thinLoop_add (n k : Nat) (b : C15.Bin) (hb : b.WF) :
+    C15.thinLoop (n + k) b = C15.thinLoop k (C15.thinLoop n b) := by
+  have succ : ∀ (m : Nat) (a : C15.Bin), C15.thinLoop (m + 1) a =
+      if (C15.iter a).data == a.data then C15.iter a else C15.thinLoop m (C15.iter a) := fun _ _ => rfl
+  induction n generalizing b with
+  | zero => simp [C15.thinLoop]
+  | succ n ih =>
+    have e : n + 1 + k = (n + k) + 1 := by omega
+    rw [e, succ (n + k) b, succ n b]
+    obtain ⟨hr, hc, hw⟩ := C15.iter_shape b hb
+    by_cases heq : ((C15.iter b).data == b.data) = true
+    · rw [if_pos heq, if_pos heq]
+      have hd : (C15.iter b).data = b.data := by simpa using heq
+      have hib : C15.iter b = b := C15.bin_ext _ _ hr hc hd
+      have hs : C15.Stable (C15.iter b) := by unfold C15.Stable; rw [hib]; exact hd
+      exact (C15.thinLoop_eq_of_stable k _ hw hs).symm
+    · rw [if_neg heq, if_neg heq]
+      exact ih (C15.iter b) hw
+
+/-- **C15 (`thin`, the `max_iter` argument).** `while (any_change && (max_iter < 0 || n++ < max_iter))`: for
+`max_iter ≥ 0` the model runs exactly the loop with fuel `max_iter` — at most `max_iter` rounds of the eight passes, stopping
+early at a fixed point; the internal cap `count + 1` never binds (more fuel than pixels changes nothing). Consequences:
+`max_iter = 0` returns the image unchanged; every `max_iter > count` (and every negative one) gives the full thinning; and
+the result for `max_iter + k` is the result of `k` more rounds on the result for `max_iter`. -/
+theorem C15_thin_max_iter (b : C15.Bin) (hb : b.WF) (m : Nat) :
+    C15.thinCore b (m : Int) = C15.thinLoop m b ∧
+    C15.thinCore b 0 = b ∧
+    (b.count < m → C15.thinCore b (m : Int) = C15.thinCore b (-1)) ∧
+    (∀ k : Nat, C15.thinCore b ((m + k : Nat) : Int) = C15.thinLoop k (C15.thinCore b (m : Int))) := by
+  have full : ∀ n : Nat, b.count + 1 ≤ n → C15.thinLoop n b = C15.thinLoop (b.count + 1) b := by
+    intro n hn
+    obtain ⟨k, rfl⟩ : ∃ k, n = (b.count + 1) + k := ⟨n - (b.count + 1), by omega⟩
+    rw [C15_thinLoop_add _ _ _ hb]
+    exact C15.thinLoop_eq_of_stable k _ (C15.thinLoop_wf _ b hb) (C15.thinLoop_stable _ b hb (by omega))
+  have core : ∀ n : Nat, C15.thinCore b (n : Int) = C15.thinLoop n b := by
+    intro n
+    unfold C15.thinCore
+    have : ¬ ((n : Int) < 0) := by omega
+    simp only [this, if_false, Int.toNat_natCast]
+    rcases Nat.le_total (b.count + 1) n with h | h
+    · rw [Nat.min_eq_left h]; exact (full n h).symm
+    · rw [Nat.min_eq_right h]
+  refine ⟨core m, ?_, ?_, ?_⟩
+  · have := core 0
+    simpa [C15.thinLoop] using this
+  · intro h
+    rw [core m, full m (by omega)]
+    unfold C15.thinCore
+    simp
+  · intro k
+    rw [core (m + k), core m, C15_thinLoop_add _ _ _ hb]
+
+/-- **C15 (`thin`: control structure tied to the current source).** What `thinModel` / `thinCore` / `thinLoop` transliterate,
+re-extracted on every run: `thin.py` — result `zeros_like`, `bbox`, a `(r+2, c+2)` zero frame with the crop pasted at
+`[1:r+1, 1:c+1]`, the native call with `int(max_iter)`, the paste back into `[min0:max0, min1:max1]`; `_thin.cpp: py_thin` —
+`any_change = true; n = 0; while (any_change && ((max_iter < 0) || n++ < max_iter))`, `any_change = false` at the head of a round,
+the `for` over all `Nr_Elements` elements in order with `fast_hitmiss(array, elems[i], buffer)` followed by the clearing loop over
+all `N = PyArray_SIZE(array)` cells (`if (*pb && *pa)`), and the eight `fill_data` calls (`C15_thin_templates_rotations`).
+A changed frame width, slice, loop bound or stop condition breaks this `decide`. -/
+theorem C15_thin_structure_source_tie :
+    Generated.thinPyParams = ["binimg", "max_iter", "=-1"] ∧
+    Generated.thinPyBody =
+      ["res = np.zeros_like(binimg)", "min0, max0, min1, max1 = bbox(binimg)", "r, c = (max0 - min0, max1 - min1)",
+       "image_exp = np.zeros((r + 2, c + 2), bool)", "image_exp[1:r + 1, 1:c + 1] = binimg[min0:max0, min1:max1]",
+       "imagebuf = np.empty((r + 2, c + 2), bool)", "_thin(image_exp, imagebuf, int(max_iter))",
+       "res[min0:max0, min1:max1] = image_exp[1:r + 1, 1:c + 1]", "return res"] ∧
+    Generated.thinLoopInit = ["N = PyArray_SIZE(array)", "any_change = true", "n = 0"] ∧
+    Generated.thinLoopCond = "any_change && ((max_iter < 0) || n++ < max_iter)" ∧
+    Generated.thinLoopSkeleton =
+      ["any_change = false", "for i in [0, Nr_Elements)", "fast_hitmiss(array, elems[i], buffer)", "for j in [0, N)", "if (*pb && *pa)"] ∧
+    Generated.thinElems.length = 8 := by
+  decide
+
+/-! non-vacuity: on a filled 3×3 block in its frame one round changes the image, `max_iter = 0` does not, and two rounds are
+    one round after one round -/
+set_option maxRecDepth 8000 in
+example :
+    let b := C15.Bin.ofInts 5 5 [0,0,0,0,0, 0,1,1,1,0, 0,1,1,1,0, 0,1,1,1,0, 0,0,0,0,0]
+    (C15.thinCore b 0).data = b.data ∧ (C15.thinCore b 1).data ≠ b.data ∧
+    (C15.thinCore b 2).data = (C15.thinLoop 1 (C15.thinCore b 1)).data := by decide
+
+
+/-! ## Round 4 — Gray's identity for an unbounded family: every one-row image -/
+
+/-- **C15 (`euler`: Gray's identity, every image of height 1).** For every image with one row — any width, any
+number of runs, runs touching either end — and both connectivity conventions, the bit-quad sum of the model (generated
+look-up tables, padded windows) is four times `components − holes` as counted by the flood-fill oracle:
+`eulerModel4 b c = 4 · eulerSpec b c`. Bit-quad side: a one-row image is a product image, its window weight factors into
+(row transition) × (column transition) (`qw_prod`), the row indicator has two transitions and the number of value changes along
+the row is twice the number of runs (telescoping sum). Graph side (`C15_eulerSpec_count`): in one row the edges join horizontal
+neighbours only, the smallest pixel of a component is exactly a run start (`minimal_iff_one_row`), and every background pixel
+is a border pixel, so there are no holes. (First instance of the identity for a family with arbitrarily many components;
+heights ≥ 2 remain validated only — there holes appear and the argument needs the Euler–Poincaré step.) -/
+theorem C15_euler_gray_one_row (b : C15.Bin) (c : Bool) (h1 : b.rows = 1) :
+    C15.eulerModel4 b c = 4 * C15.eulerSpec b c := by
+  obtain ⟨comps, inner, hc, _, hspec, hcm, him⟩ := C15_eulerSpec_count b c
+  rw [C15.eulerModel4_one_row b c h1, hspec]
+  have hinner : inner = [] := by
+    cases inner with
+    | nil => rfl
+    | cons s t =>
+      have hs := (him s).1 (List.mem_cons_self)
+      have hlt : s < b.cols := by have := hs.1.1.1; rw [h1] at this; omega
+      exact absurd ⟨s, Relation.ReflTransGen.refl, by rw [h1]; exact C15.bdr_one_row hlt⟩ hs.2
+  have hlen : (comps.length : Int) =
+      ∑ k ∈ Finset.range b.cols, if (C15.mk b.data k = true ∧ (k = 0 ∨ C15.mk b.data (k - 1) = false)) then 1 else 0 := by
+    apply C15.length_eq_sum_indicator comps hc b.cols
+    intro i
+    rw [hcm i]
+    constructor
+    · rintro ⟨hv, hmin⟩
+      have hv1 : C15.IsV 1 b.cols b.data i := by rw [← h1]; exact hv
+      have := (C15.minimal_iff_one_row b.cols b.data c i hv1).1 (by rw [← h1]; exact hmin)
+      exact ⟨by have := hv1.1; omega, hv1.2, this⟩
+    · rintro ⟨hi, hm, hl⟩
+      have hv1 : C15.IsV 1 b.cols b.data i := ⟨by omega, hm⟩
+      refine ⟨by rw [h1]; exact hv1, ?_⟩
+      rw [h1]
+      exact (C15.minimal_iff_one_row b.cols b.data c i hv1).2 hl
+  rw [hinner, hlen]
+  simp only [List.length_nil, Int.natCast_zero, Int.sub_zero]
+  congr 1
+  apply Finset.sum_congr rfl
+  intro k hk
+  exact C15.up_one_row b h1 k (Finset.mem_range.mp hk)
+
+/-! non-vacuity: `1 0 1 1 0 1` has three runs: sum 12, three components, no hole — and the theorem applies to it -/
+example :
+    let b := C15.Bin.ofInts 1 6 [1, 0, 1, 1, 0, 1]
+    C15.eulerModel4 b true = 12 ∧ C15.eulerSpec b true = 3 ∧ C15.eulerModel4 b false = 4 * C15.eulerSpec b false := by
+  intro b
+  exact ⟨by decide +kernel, by decide +kernel, C15_euler_gray_one_row b false rfl⟩
+
+/-- **C15 (`euler`: Gray's identity, every image of width 1).** The same for one-column images (any height, any number of
+runs, both connectivities): `eulerModel4 b c = 4 · eulerSpec b c` for `b.cols = 1`. The pixel graph of a one-column box is again
+a path (`adj_one_col`), every pixel is a border pixel, and the image is the product of the column profile with the indicator
+of column 0. Together with `C15_euler_gray_one_row`: Gray's identity holds for every image with `min(rows, cols) = 1`. -/
+theorem C15_euler_gray_one_col (b : C15.Bin) (c : Bool) (h1 : b.cols = 1) :
+    C15.eulerModel4 b c = 4 * C15.eulerSpec b c := by
+  obtain ⟨comps, inner, hc, _, hspec, hcm, him⟩ := C15_eulerSpec_count b c
+  rw [C15.eulerModel4_one_col b c h1, hspec]
+  have hinner : inner = [] := by
+    cases inner with
+    | nil => rfl
+    | cons s t =>
+      have hs := (him s).1 (List.mem_cons_self)
+      exact absurd ⟨s, Relation.ReflTransGen.refl, by rw [h1]; exact C15.bdr_one_col _ _⟩ hs.2
+  have hpath := C15.minimal_iff_path b.rows 1 b.data c
+    (fun i j hi h => C15.adj_one_col (by omega) h)
+    (fun i hi h1' => C15.adj_left_one_col c (by omega) h1')
+  have hlen : (comps.length : Int) =
+      ∑ k ∈ Finset.range b.rows, if (C15.mk b.data k = true ∧ (k = 0 ∨ C15.mk b.data (k - 1) = false)) then 1 else 0 := by
+    apply C15.length_eq_sum_indicator comps hc b.rows
+    intro i
+    rw [hcm i, h1]
+    constructor
+    · rintro ⟨hv, hmin⟩
+      exact ⟨by have := hv.1; omega, hv.2, (hpath i hv).1 hmin⟩
+    · rintro ⟨hi, hm, hl⟩
+      have hv : C15.IsV b.rows 1 b.data i := ⟨by omega, hm⟩
+      exact ⟨hv, (hpath i hv).2 hl⟩
+  rw [hinner, hlen]
+  simp only [List.length_nil, Int.natCast_zero, Int.sub_zero]
+  congr 1
+  apply Finset.sum_congr rfl
+  intro k hk
+  exact C15.up_one_col b h1 k (Finset.mem_range.mp hk)
+
+/-! non-vacuity: the column `1 1 0 1` has two runs -/
+example :
+    let b := C15.Bin.ofInts 4 1 [1, 1, 0, 1]
+    C15.eulerModel4 b true = 8 ∧ C15.eulerSpec b false = 2 ∧ C15.eulerModel4 b false = 4 * C15.eulerSpec b false := by
+  intro b
+  exact ⟨by decide +kernel, by decide +kernel, C15_euler_gray_one_col b false rfl⟩
